@@ -3,6 +3,7 @@ package main
 // Loading of /repo packages (go/packages + go/ssa) and of contract files.
 
 import (
+	"go/token"
 	"fmt"
 	"go/types"
 	"os"
@@ -30,6 +31,7 @@ type World struct {
 	ghosts    map[string]*GhostDecl
 	files     []*ContractFile
 	immGlobal map[*ssa.Global]string // globals never stored to outside init: kind "err", "const", "other"
+	globalStruct map[*ssa.Global][]*ssa.Const // struct-typed immutable globals initialised from a literal of constants: per field (nil = zero)
 	opaque    map[string]bool
 }
 
@@ -56,7 +58,7 @@ func loadWorld(repo string, patterns []string, extraContractDirs []string) (*Wor
 	w := &World{repo: repo, prog: prog, pkgs: map[string]*ssa.Package{}, tpkgs: map[string]*packages.Package{},
 		funcSpecs: map[string]*FuncSpec{}, specFuncs: map[string]*SpecFunc{}, lemmas: map[string]*Lemma{},
 		invs: map[string]*InvDef{}, consts: map[string]string{}, ghosts: map[string]*GhostDecl{},
-		immGlobal: map[*ssa.Global]string{}, opaque: map[string]bool{}}
+		immGlobal: map[*ssa.Global]string{}, globalStruct: map[*ssa.Global][]*ssa.Const{}, opaque: map[string]bool{}}
 	packages.Visit(pkgs, nil, func(p *packages.Package) {
 		w.tpkgs[p.PkgPath] = p
 		if sp := prog.Package(p.Types); sp != nil {
@@ -288,6 +290,7 @@ func (w *World) specFor(fn *ssa.Function) *FuncSpec {
 func (w *World) classifyGlobals(p *ssa.Package) {
 	written := map[*ssa.Global]int{}
 	initVal := map[*ssa.Global]ssa.Value{}
+	fieldInit := map[*ssa.Global][]*ssa.Const{}
 	for _, m := range p.Members {
 		fn, ok := m.(*ssa.Function)
 		if !ok {
@@ -310,8 +313,39 @@ func (w *World) classifyGlobals(p *ssa.Package) {
 					for _, op := range in.Operands(nil) {
 						if g, ok := (*op).(*ssa.Global); ok {
 							switch in.(type) {
-							case *ssa.Store, *ssa.UnOp:
+							case *ssa.Store, *ssa.UnOp, *ssa.DebugRef:
+							case *ssa.FieldAddr:
+								// init: *(&g.f) = const  (struct literal of constants stored field by field)
+								fa := in.(*ssa.FieldAddr)
+								okc := f.Name() == "init" && f.Parent() == nil && fa.X == ssa.Value(g)
+								var cst *ssa.Const
+								if okc {
+									for _, fr := range *fa.Referrers() {
+										if fst, ok := fr.(*ssa.Store); ok && fst.Addr == ssa.Value(fa) {
+											if c, ok := fst.Val.(*ssa.Const); ok && cst == nil {
+												cst = c
+												continue
+											}
+										}
+										if _, ok := fr.(*ssa.DebugRef); ok {
+											continue
+										}
+										okc = false
+									}
+								}
+								stT, isSt := g.Type().Underlying().(*types.Pointer).Elem().Underlying().(*types.Struct)
+								if okc && isSt && cst != nil {
+									if fieldInit[g] == nil {
+										fieldInit[g] = make([]*ssa.Const, stT.NumFields())
+									}
+									fieldInit[g][fa.Field] = cst
+								} else {
+									written[g]++
+								}
 							default:
+								if os.Getenv("GOVC_DEBUG_GLOBALS") != "" {
+									fmt.Fprintf(os.Stderr, "global %s used by %T in %s\n", g.Name(), in, f.Name())
+								}
 								written[g]++
 							}
 						}
@@ -353,9 +387,29 @@ func (w *World) classifyGlobals(p *ssa.Package) {
 			continue
 		}
 		if written[g] > 0 {
+			if os.Getenv("GOVC_DEBUG_GLOBALS") != "" {
+				fmt.Fprintf(os.Stderr, "global %s written %d\n", g.Name(), written[g])
+			}
 			continue
 		}
 		kind := "other"
+		if fi, ok := fieldInit[g]; ok {
+			if _, whole := initVal[g]; !whole {
+				good := true
+				stT := g.Type().Underlying().(*types.Pointer).Elem().Underlying().(*types.Struct)
+				for i := 0; i < stT.NumFields(); i++ {
+					if b, ok := stT.Field(i).Type().Underlying().(*types.Basic); !ok || b.Info()&(types.IsInteger|types.IsBoolean) == 0 {
+						good = false
+					}
+				}
+				if good {
+					kind = "structconst"
+					w.globalStruct[g] = fi
+				}
+			} else {
+				continue
+			}
+		}
 		if v, ok := initVal[g]; ok {
 			if c, ok := v.(*ssa.Call); ok {
 				if f := c.Call.StaticCallee(); f != nil {
@@ -372,6 +426,45 @@ func (w *World) classifyGlobals(p *ssa.Package) {
 			if c, ok := v.(*ssa.Const); ok {
 				_ = c
 				kind = "const"
+			}
+			if ld, ok := v.(*ssa.UnOp); ok && ld.Op == token.MUL {
+				// struct literal of constants: t = local T (complit); *(&t.f) = const ...; *g = *t
+				if al, ok := ld.X.(*ssa.Alloc); ok {
+					if stT, ok := al.Type().Underlying().(*types.Pointer).Elem().Underlying().(*types.Struct); ok {
+						fields := make([]*ssa.Const, stT.NumFields())
+						good := true
+						for _, ref := range *al.Referrers() {
+							switch r := ref.(type) {
+							case *ssa.FieldAddr:
+								for _, fr := range *r.Referrers() {
+									if fst, ok := fr.(*ssa.Store); ok && fst.Addr == r {
+										if c, ok := fst.Val.(*ssa.Const); ok && fields[r.Field] == nil {
+											fields[r.Field] = c
+											continue
+										}
+									}
+									good = false
+								}
+							case *ssa.UnOp:
+								if r != ld {
+									good = false
+								}
+							case *ssa.DebugRef:
+							default:
+								good = false
+							}
+						}
+						for i := 0; i < stT.NumFields(); i++ {
+							if b, ok := stT.Field(i).Type().Underlying().(*types.Basic); !ok || b.Info()&(types.IsInteger|types.IsBoolean) == 0 {
+								good = false
+							}
+						}
+						if good {
+							kind = "structconst"
+							w.globalStruct[g] = fields
+						}
+					}
+				}
 			}
 			if sl, ok := v.(*ssa.Slice); ok && sl.Low == nil && sl.High == nil {
 				if al, ok := sl.X.(*ssa.Alloc); ok {
